@@ -47,14 +47,35 @@ Section Life.
   Variable maxr : Z.
   Hypothesis OK : tables_ok T maxr.
 
-  Ltac tb := rewrite ?(ok_guard T maxr OK), ?(ok_terminal T maxr OK), ?(ok_store T maxr OK),
+  Ltac tb := rewrite ?(ok_guard T maxr OK), ?(ok_terminal T maxr OK),
                      ?(ok_fast_b T maxr OK), ?(ok_tail_b T maxr OK), ?(ok_fast_a T maxr OK),
                      ?(ok_tail_a T maxr OK), ?(ok_submit T maxr OK), ?(ok_status T maxr OK),
                      ?(ok_initial T maxr OK).
-  Ltac tbin H := rewrite ?(ok_guard T maxr OK), ?(ok_terminal T maxr OK), ?(ok_store T maxr OK),
+  Ltac tbin H := rewrite ?(ok_guard T maxr OK), ?(ok_terminal T maxr OK),
                      ?(ok_fast_b T maxr OK), ?(ok_tail_b T maxr OK), ?(ok_fast_a T maxr OK),
                      ?(ok_tail_a T maxr OK), ?(ok_submit T maxr OK), ?(ok_status T maxr OK),
                      ?(ok_initial T maxr OK) in H.
+
+  (** whether from_json itself records the results of a 'finished' reply (then also for the reply to
+      the submission); false for the source in which only query_status does *)
+  Definition sfj : bool := tb_store_fj T DONE.
+
+  Lemma store_fj_eq s : tb_store_fj T s = sfj && status_eqb s DONE.
+  Proof. apply (ok_store_fj T maxr OK). Qed.
+
+  Lemma store_q s : tb_store T s || (sfj && status_eqb s DONE) = status_eqb s DONE.
+  Proof. rewrite <- store_fj_eq. apply (ok_store T maxr OK). Qed.
+
+  (** from_json in terms of the documented tables: [store] says whether the reply's payload is recorded *)
+  Definition upd (s : st) (r : reply) (polled store : bool) : st :=
+    {| s_status := spec_status (r_status r);
+       s_results := if store then Some (r_payload r) else s_results s;
+       s_job := Some (r_job r); s_log := s_log s; s_sleeps := s_sleeps s; s_await := s_await s;
+       s_last := Some r; s_polled := polled |}.
+
+  Lemma from_json_upd s r p :
+    from_json T s r p = upd s r p (sfj && status_eqb (spec_status (r_status r)) DONE).
+  Proof. unfold from_json, upd. rewrite (ok_status T maxr OK), store_fj_eq. reflexivity. Qed.
 
   (** ---------------------------------------------------------------- retry loop *)
 
@@ -187,9 +208,7 @@ Section Life.
        match res with
        | TRet r =>
            o = OStatus (spec_status (r_status r)) /\
-           s' = (if status_eqb (spec_status (r_status r)) DONE
-                 then set_results (from_json T s1 r true) (Some (r_payload r))
-                 else from_json T s1 r true)
+           s' = upd s1 r true (status_eqb (spec_status (r_status r)) DONE)
        | TRaise x => o = ONet x /\ s' = s1
        | TFallOff => o = OCrash /\ s' = s1
        | TDry => o = ODry /\ s' = s1
@@ -200,9 +219,12 @@ Section Life.
     - intros E. injection E as <- <- <-. right. left. destruct (s_status s); try discriminate; auto.
     - unfold do_request. destruct (http_request T outs) as [[res n] rest] eqn:H.
       intros E. right. right. split; [reflexivity|]. exists res, n.
-      destruct res as [r|x| |]; cbn zeta in E; cbn [from_json s_status set_log] in E; tbin E;
-        injection E as <- <- <-; (split; [reflexivity|]); cbn zeta; try (split; reflexivity).
-      destruct (status_eqb (spec_status (r_status r)) DONE); cbn; tb; split; reflexivity.
+      destruct res as [r|x| |]; cbn zeta in E;
+        try (injection E as <- <- <-; (split; [reflexivity|]); cbn zeta; split; reflexivity).
+      rewrite from_json_upd in E. cbn [upd s_status] in E.
+      pose proof (store_q (spec_status (r_status r))) as SQ.
+      destruct (tb_store T (spec_status (r_status r))), sfj, (status_eqb (spec_status (r_status r)) DONE);
+        cbn in SQ; try discriminate; injection E as <- <- <-; (split; [reflexivity|]); cbn zeta; split; reflexivity.
   Qed.
 
   Lemma http_request_consumes outs res n rest :
@@ -222,7 +244,7 @@ Section Life.
     - discriminate.
     - congruence.
     - cbn zeta in E. destruct res as [r|y| |]; destruct E as [E ->]; try discriminate.
-      injection E as ->. destruct (status_eqb (spec_status (r_status r)) DONE); cbn; tb; reflexivity.
+      injection E as ->. reflexivity.
   Qed.
 
   (** ---------------------------------------------------------------- generic lifting of a
@@ -326,7 +348,7 @@ Section Life.
        let s1 := logged s RPut n in
        match res with
        | TRet r =>
-           s' = from_json T s1 r false /\
+           s' = upd s1 r false (sfj && status_eqb (spec_status (r_status r)) DONE) /\
            o = (if status_eqb (spec_status (r_status r)) ERROR then OSubmitRaised
                 else OSubmitted (spec_status (r_status r)))
        | TRaise x => o = ONet x /\ s' = s1
@@ -337,7 +359,8 @@ Section Life.
     cbn [step]. tb. destruct (status_eqb (s_status s) INITIALIZING) eqn:I.
     - apply status_eqb_eq in I. unfold do_request.
       destruct (http_request T outs) as [[res n] rest] eqn:H. intros E. right. split; [exact I|].
-      exists res, n. destruct res as [r|x| |]; cbn zeta in E; cbn [from_json s_status set_log] in E; tbin E;
+      exists res, n. destruct res as [r|x| |]; cbn zeta in E; try rewrite from_json_upd in E;
+        cbn [upd s_status] in E; tbin E;
         injection E as <- <- <-; (split; [reflexivity|]); cbn zeta; try (split; reflexivity).
     - intros E. injection E as <- <- <-. left. repeat split; try reflexivity.
       intros H. apply status_eqb_eq in H. congruence.
@@ -466,8 +489,9 @@ Section Life.
     inv_status : s_status s = match s_last s with None => INITIALIZING | Some r => spec_status (r_status r) end;
     inv_job : s_job s = option_map r_job (s_last s);
     inv_results : forall p, s_results s = Some p ->
-                    s_status s = DONE /\ s_polled s = true /\ exists r, s_last s = Some r /\ r_payload r = p;
-    inv_done : s_status s = DONE -> s_polled s = true -> s_results s <> None
+                    s_status s = DONE /\ (s_polled s = true \/ sfj = true) /\
+                    exists r, s_last s = Some r /\ r_payload r = p;
+    inv_done : s_status s = DONE -> (s_polled s = true \/ sfj = true) -> s_results s <> None
   }.
 
   Definition R_inv (s : st) (_ : list tout) (s' : st) (_ : list tout) : Prop := Inv s -> Inv s'.
@@ -487,12 +511,12 @@ Section Life.
     { destruct (s_results s) as [p|] eqn:Rs; [|reflexivity].
       destruct (inv_results s HI p Rs) as [Hd _]. rewrite Hd in G. discriminate. }
     destruct (status_eqb (spec_status (r_status r)) DONE) eqn:D.
-    - apply status_eqb_eq in D. split; cbn; tb.
+    - apply status_eqb_eq in D. split; cbn.
       + reflexivity.
       + reflexivity.
-      + intros p Hp. injection Hp as <-. repeat split; try assumption. exists r. auto.
+      + intros p Hp. injection Hp as <-. repeat split; try assumption; [left; reflexivity|]. exists r. auto.
       + discriminate.
-    - split; cbn; tb.
+    - split; cbn.
       + reflexivity.
       + reflexivity.
       + rewrite NR. discriminate.
@@ -507,11 +531,20 @@ Section Life.
     assert (NR : s_results s = None).
     { destruct (s_results s) as [p|] eqn:Rs; [|reflexivity].
       destruct (inv_results s HI p Rs) as [Hd _]. rewrite Hd in I0. discriminate. }
-    split; cbn; tb.
+    destruct sfj eqn:F; cbn [andb];
+      [destruct (status_eqb (spec_status (r_status r)) DONE) eqn:D|]; split; cbn.
+    - reflexivity.
+    - reflexivity.
+    - apply status_eqb_eq in D. intros p Hp. injection Hp as <-. repeat split; auto. exists r. auto.
+    - discriminate.
     - reflexivity.
     - reflexivity.
     - rewrite NR. discriminate.
-    - discriminate.
+    - intros Hd. rewrite Hd in D. discriminate.
+    - reflexivity.
+    - reflexivity.
+    - rewrite NR. discriminate.
+    - intros _ [H|H]; [discriminate|unfold sfj in *; congruence].
   Qed.
 
   Lemma inv_sleep s : Inv s -> Inv (add_sleep s).
@@ -630,7 +663,7 @@ Section Life.
   Lemma results_answer_payload s :
     Inv s ->
     (s_status s <> DONE -> results_answer s = None) /\
-    (s_status s = DONE -> s_polled s = true ->
+    (s_status s = DONE -> (s_polled s = true \/ sfj = true) ->
        exists r, s_last s = Some r /\ spec_status (r_status r) = DONE /\ results_answer s = Some (r_payload r)) /\
     (forall p, results_answer s = Some p -> s_status s = DONE).
   Proof.
@@ -648,7 +681,9 @@ Section Life.
   (** ---------------------------------------------------------------- reachable states *)
 
   (** states reachable from a fresh experiment; [reach_g] additionally excludes the one
-      history in which submit_experiment itself returns an experiment that is already DONE *)
+      history in which submit_experiment itself returns an experiment that is already DONE -
+      unless from_json records the results of every 'finished' reply ([sfj] = true), in which case
+      nothing is excluded *)
   Inductive reach : st -> list tout -> Prop :=
   | reach_init outs : reach (init_st T) outs
   | reach_step s outs e o s' outs' :
@@ -657,7 +692,11 @@ Section Life.
   Inductive reach_g : st -> list tout -> Prop :=
   | reachg_init outs : reach_g (init_st T) outs
   | reachg_step s outs e o s' outs' :
-      reach_g s outs -> step T s e outs = (o, s', outs') -> o <> OSubmitted DONE -> reach_g s' outs'.
+      reach_g s outs -> step T s e outs = (o, s', outs') -> (o <> OSubmitted DONE \/ sfj = true) ->
+      reach_g s' outs'.
+
+  Lemma reach_g_all s outs : sfj = true -> reach s outs -> reach_g s outs.
+  Proof. intros F. induction 1; [constructor|econstructor; eauto]. Qed.
 
   Lemma reach_g_reach s outs : reach_g s outs -> reach s outs.
   Proof. induction 1; [constructor|econstructor; eassumption]. Qed.
@@ -666,32 +705,32 @@ Section Life.
   Proof. induction 1; [apply inv_init|eapply step_inv; eassumption]. Qed.
 
   Definition R_polled (a : st) (_ : list tout) (b : st) (_ : list tout) : Prop :=
-    (s_status a = DONE -> s_polled a = true) -> (s_status b = DONE -> s_polled b = true).
+    (s_status a = DONE -> s_polled a = true \/ sfj = true) -> (s_status b = DONE -> s_polled b = true \/ sfj = true).
 
   Lemma query_polled s outs o s' outs' : do_query T s outs = (o, s', outs') -> R_polled s outs s' outs'.
   Proof.
     unfold R_polled. intros E Hp.
     apply do_query_cases in E as [[_ [_ [-> _]]]|[[_ [_ [-> _]]]|[G [res [n [_ E]]]]]]; try exact Hp.
     cbn zeta in E. destruct res as [r|x| |]; destruct E as [_ ->]; try exact Hp.
-    destruct (status_eqb (spec_status (r_status r)) DONE); cbn; reflexivity.
+    cbn. intros _. left. reflexivity.
   Qed.
 
   (** DONE with missing results can only come from a submission that was answered 'finished' *)
   Lemma step_polled e s outs o s' outs' :
-    (s_status s = DONE -> s_polled s = true) ->
-    step T s e outs = (o, s', outs') -> o <> OSubmitted DONE ->
-    (s_status s' = DONE -> s_polled s' = true).
+    (s_status s = DONE -> s_polled s = true \/ sfj = true) ->
+    step T s e outs = (o, s', outs') -> (o <> OSubmitted DONE \/ sfj = true) ->
+    (s_status s' = DONE -> s_polled s' = true \/ sfj = true).
   Proof.
-    intros Hp E Ho. destruct e.
+    intros Hp E [Ho|Ho]; [|intros _; right; exact Ho]. destruct e.
     1: { apply submit_cases in E as [[_ [_ [-> _]]]|[I0 [res [n [_ E]]]]]; [exact Hp|].
          cbn zeta in E. destruct res as [r|y| |]; try (destruct E as [_ ->]; cbn; rewrite I0; discriminate).
-         destruct E as [-> E]. cbn. tb. intros Hd. rewrite Hd in E. cbn in E. congruence. }
+         destruct E as [-> E]. cbn. intros Hd. rewrite Hd in E. cbn in E. congruence. }
     all: revert Hp; change (R_polled s outs s' outs');
       eapply (step_R_ns R_polled); try exact E; try discriminate; unfold R_polled; intros; auto.
     all: eapply query_polled; eassumption.
   Qed.
 
-  Lemma reach_g_polled s outs : reach_g s outs -> s_status s = DONE -> s_polled s = true.
+  Lemma reach_g_polled s outs : reach_g s outs -> s_status s = DONE -> s_polled s = true \/ sfj = true.
   Proof.
     induction 1.
     - cbn. tb. discriminate.
@@ -710,7 +749,7 @@ Section Life.
     intros Hr E.
     pose proof (reach_inv _ _ (reach_g_reach _ _ Hr)) as HI.
     destruct (step_results_spec _ _ _ _ _ _ HI E) as [Ht ->].
-    assert (Hr' : reach_g s' outs') by (eapply reachg_step; [exact Hr|exact E|discriminate]).
+    assert (Hr' : reach_g s' outs') by (eapply reachg_step; [exact Hr|exact E|left; discriminate]).
     pose proof (reach_inv _ _ (reach_g_reach _ _ Hr')) as HI'.
     destruct (results_answer_payload s' HI') as [A [B _]].
     repeat split; auto. intros Hd. apply B; [exact Hd|]. eapply reach_g_polled; eassumption.
@@ -736,7 +775,7 @@ Section Life.
   (** the same on traces of whole client scripts *)
   Theorem run_results evs : forall s outs tr sf outsf,
     reach_g s outs -> run T s evs outs = (tr, sf, outsf) ->
-    (forall st0 n, ~ In (OSubmitted DONE, st0, n) tr) ->
+    (sfj = true \/ forall st0 n, ~ In (OSubmitted DONE, st0, n) tr) ->
     reach_g sf outsf /\
     Forall (fun en : tentry => forall x, fst (fst en) = OResults x ->
               spec_terminal (snd (fst en)) = true /\
@@ -746,11 +785,12 @@ Section Life.
     - injection E as <- <- <-. split; [exact Hr|constructor].
     - destruct (step T s e outs) as [[o s1] outs1] eqn:S1.
       destruct (run T s1 es outs1) as [[tr1 sf1] outsf1] eqn:R1. injection E as <- <- <-.
-      assert (Ho : o <> OSubmitted DONE).
-      { intros ->. apply (Hn (s_status s1) (length (s_log s1))). left. reflexivity. }
+      assert (Ho : o <> OSubmitted DONE \/ sfj = true).
+      { destruct Hn as [Hn|Hn]; [right; exact Hn|left].
+        intros ->. apply (Hn (s_status s1) (length (s_log s1))). left. reflexivity. }
       assert (Hr1 : reach_g s1 outs1) by (eapply reachg_step; eassumption).
       destruct (IH _ _ _ _ _ Hr1 R1) as [Hf Hall].
-      { intros st0 n Hin. apply (Hn st0 n). right. exact Hin. }
+      { destruct Hn as [Hn|Hn]; [left; exact Hn|right]. intros st0 n Hin. apply (Hn st0 n). right. exact Hin. }
       split; [exact Hf|]. constructor; [|exact Hall].
       cbn. intros x ->. destruct (results_exactly_when_done _ _ _ _ _ _ Hr S1) as [A [B C]].
       repeat split; auto. intros Hd. destruct (C Hd) as [r [_ [_ ->]]]. discriminate.
